@@ -596,10 +596,14 @@ theorem invC_step {k : Nat} {s s' : St V} {l : Label V} (ha : InvA k s) (hi : In
   | cCall live => obtain ⟨_, rfl⟩ := step_cCall h; exact ⟨hi.c1, hi.c2, hi.c3, hi.w1, hi.w2, hi.w3, hi.w4, hi.sc, hi.z, hi.f1, hi.f2⟩
   | cEnd => obtain ⟨_, _, _, rfl⟩ := step_cEnd h; exact ⟨hi.c1, hi.c2, hi.c3, hi.w1, hi.w2, hi.w3, hi.w4, hi.sc, hi.z, hi.f1, hi.f2⟩
   | cCtx => obtain ⟨_, rfl⟩ := step_cCtx h; exact ⟨hi.c1, hi.c2, hi.c3, hi.w1, hi.w2, hi.w3, hi.w4, hi.sc, hi.z, hi.f1, hi.f2⟩
+  | cExpire => obtain ⟨_, rfl⟩ := step_cExpire h; exact ⟨hi.c1, hi.c2, hi.c3, hi.w1, hi.w2, hi.w3, hi.w4, hi.sc, hi.z, hi.f1, hi.f2⟩
   | cClose => obtain ⟨_, rfl⟩ := step_cClose h; exact ⟨hi.c1, hi.c2, hi.c3, hi.w1, hi.w2, hi.w3, hi.w4, hi.sc, hi.z, hi.f1, hi.f2⟩
   | cCloseStep =>
     rcases step_cCloseStep h with ⟨_, _, rfl⟩ | ⟨_, _, rfl⟩ | ⟨_, _, _, rfl⟩ <;>
       exact ⟨hi.c1, hi.c2, hi.c3, hi.w1, hi.w2, hi.w3, hi.w4, hi.sc, hi.z, hi.f1, hi.f2⟩
+  | ctxEnds =>
+    obtain ⟨_, _, rfl⟩ := step_ctxEnds h
+    exact ⟨hi.c1, hi.c2, hi.c3, hi.w1, hi.w2, hi.w3, hi.w4, hi.sc, hi.z, hi.f1, hi.f2⟩
 
 theorem reach_invC {k : Nat} {s : St V} (h : Reach (init V k) s) : InvC k s := by
   induction h with
